@@ -186,6 +186,20 @@ CHECKS["C15"] = (
     "DESIGN.md section 3, C15",
 )
 
+CHECKS["C11"] = (
+    "ENUM",
+    "model_checking",
+    "bounded exhaustive enumeration of grammar shapes x terminal strings over an escaping-relevant alphabet; identity or bounded language equality after the BNF round trip",
+    "Grammar shapes of the generated one- and two-nonterminal families (empty alternatives included) get their terminal letters replaced "
+    "by every string of length 1-2 over 22 characters (quotes, backslash, newline, tab, CR, NUL and other controls, DEL, '<', '>', space, "
+    "'|', ':', '=', a non-ASCII letter, and letters/digits that turn a backslash into a literal escape text), plus nine hand-written shortcut "
+    "inputs (placeholder text, <langle>/<langle_0> predefined in both orders, '<' adjacent to nonterminals, all control characters, empty "
+    "alternatives). parse_bnf(unparse_grammar(g)) must equal g when no terminal contains '<'; otherwise every nonterminal of g must keep "
+    "its language (all words up to length 6). Any exception is a violation.",
+    "Substitutions that would make terminal text look like a nonterminal are skipped (a dict grammar cannot express them).",
+    "DESIGN.md section 3, C11",
+)
+
 NOT_YET = "check not built yet in this round (planned in DESIGN.md section 3)"
 
 
